@@ -104,6 +104,16 @@ func genUciDet(o *Out, r *rand.Rand, thorough bool) {
 				add("> ucinewgame")
 				tags["ucinewgame"] = true
 				continue
+			case x < 83: // an option set in the middle of a game must not touch the game (it takes effect at the next new game)
+				add(fmt.Sprintf("> setoption name Hash value %d", r.Intn(3)), "sync", "state")
+				tags["setoption-midgame"] = true
+				// ... and the same game goes on: repeated or extended
+				if r.Intn(2) == 0 {
+					ext := playoutMoves(r, start, len(moves)+1+r.Intn(2))
+					if len(ext) >= len(moves) && strings.Join(ext[:len(moves)], " ") == strings.Join(moves, " ") {
+						moves = ext
+					}
+				}
 			case x < 86 && r.Intn(5) < 2: // malformed: white space other than one blank between the moves
 				// `continuation` cuts the extra words with strings.Fields (every unicode.IsSpace rune, runs of them), the
 				// new-position path cuts the line with strings.Split(_, " "): with a remembered line that this one extends
